@@ -179,10 +179,8 @@ fn c_empty<'a, T: Rel>(rr: &mut RR<'a, T>, m: &mut S<'a>) {
     rr.empty();
     m.empty();
     assert!(rr.len() == 0 && rr.is_empty());
-    assert!(rr.read_u8().is_err() && rr.skip(1).is_err() && rr.find(0).is_err());
-    // (the position after `empty()` is the subject of the finding, see k_reloc_empty_then_read; not compared here)
-    *rr = reloc_at(*rr.inner(), T::any(), 0, 0);
-    *m = *rr.inner();
+    assert!(rr.read_u8() == m.read_u8() && rr.skip(1) == m.skip(1) && rr.find(0) == Reader::find(m, 0));
+    // (the position is kept: the caller's `same` compares the windows)
 }
 
 macro_rules! step {
@@ -314,8 +312,8 @@ relocating!(k_reloc_addk_split_read_offset, AddK, true, |r, _size, _f| r.read_of
 relocating!(k_reloc_addk_split_read_sized_offset, AddK, true, |r, _size, _f| r.read_sized_offset(4),
             |t, pos, raw| if pos == t.bad { Err(Error::UnsupportedOffset) } else { Ok(raw.wrapping_add(t.k as usize).wrapping_add(pos).wrapping_add(1)) });
 
-/// EXPECTED-FAIL on the pinned tree (finding, native/src/bin/f_relocate_1.rs): after `empty()` the three relocating
-/// reads must fail like the bare reader does (UnexpectedEof); they panic in `EndianSlice::offset_from` instead.
+/// after `empty()` the three relocating reads fail exactly like the bare reader (UnexpectedEof naming the position) and
+/// do not panic in `offset_from` (regression harness for the fixed finding, native/src/bin/f_relocate_1.rs)
 #[kani::proof]
 #[kani::unwind(20)]
 fn k_reloc_empty_then_read() {
@@ -327,11 +325,16 @@ fn k_reloc_empty_then_read() {
     rr.empty();
     m.empty();
     let size: u8 = kani::any();
+    same(&rr, &m);
     if kani::any() {
-        assert!(rr.read_address(size).is_err() && m.read_address(size).is_err());
+        let a = rr.read_address(size);
+        assert!(a.is_err() && a == m.read_address(size));
     } else if kani::any() {
-        assert!(rr.read_sized_offset(size).is_err() && m.read_sized_offset(size).is_err());
+        let a = rr.read_sized_offset(size);
+        assert!(a.is_err() && a == m.read_sized_offset(size));
     } else {
-        assert!(rr.read_offset(Format::Dwarf32).is_err() && m.read_offset(Format::Dwarf32).is_err());
+        let a = rr.read_offset(Format::Dwarf32);
+        assert!(a.is_err() && a == m.read_offset(Format::Dwarf32));
     }
+    same(&rr, &m);
 }
